@@ -27,14 +27,20 @@ def _parse_missing(msg):
     return head, ast.literal_eval(tail)
 
 
-def c10_req(ins: bool, ma: int, mb: int, mc: int,
+def c10_req(nonev: int, ins: bool, ma: int, mb: int, mc: int,
             ba0: bool, ba1: bool, bb0: bool, bb1: bool, bc0: bool, bc1: bool,
             va0: int, va1: int, vb0: int, vb1: int, vc0: int, vc1: int,
             ca: int, cb: int, cc: int) -> bool:
   """
-  pre: 0 <= ma < 5 and 0 <= mb < 5 and 0 <= mc < 3
+  pre: 0 <= ma < 5 and 0 <= mb < 5 and 0 <= mc < 3 and 0 <= nonev < 4
   """
   world.fresh()
+  # a bound value may be a perfectly legal None (root bindings of a / b / both)
+  nonev = rt.pick(nonev, 4)
+  if nonev in (1, 3):
+    va0 = None
+  if nonev in (2, 3):
+    vb0 = None
   ins = rt.flag(ins)
   ma = rt.pick(ma, 5)
   mb = rt.pick(mb, 5)
@@ -85,7 +91,7 @@ def c10_req(ins: bool, ma: int, mb: int, mc: int,
   else:
     if has_c: exp_c = bnd_c
     else: missing.append('c'); exp_c = None
-  rt.sig(('req', ins, ma, mb, mc, tuple(sorted(k for k in pres if pres[k]))),
+  rt.sig(('req', nonev, ins, ma, mb, mc, tuple(sorted(k for k in pres if pres[k]))),
          nontrivial=bool(missing) or (ma in (1, 2) or mb != 3))
 
   exc = None
@@ -272,17 +278,17 @@ HARNESSES = {
     'c10_req': dict(
         fn='c10_req',
         anchors=['gin.config:gin_wrapper', 'gin.config:_order_by_signature'],
-        smoke=[dict(ins=True, ma=1, mb=0, mc=1, ba0=True, ba1=False, bb0=False, bb1=False,
+        smoke=[dict(nonev=1, ins=True, ma=1, mb=0, mc=1, ba0=True, ba1=False, bb0=False, bb1=False,
                     bc0=False, bc1=False, va0=1, va1=2, vb0=3, vb1=4, vc0=5, vc1=6,
                     ca=7, cb=8, cc=9)],
         tiers={
-            'quick': dict(split=dict(ma=list(range(5)), mb=list(range(5))),
+            'quick': dict(split=dict(ma=list(range(5)), mb=list(range(5)), nonev=[0, 3]),
                           fixed=dict(bc1=False, ba1=False), budget_s=100),
             'thorough': dict(split=dict(ma=list(range(5)), mb=list(range(5)),
-                                        mc=list(range(3))), budget_s=600),
+                                        mc=list(range(3)), nonev=[0, 1, 2, 3]), budget_s=600),
         },
         bounds='req(a, b=REQUIRED, *, c=REQUIRED, d=default): 5 caller modes for a and b, 3 for c; '
-               'bindings at root and in scope s; active scope [] or [s]; values: all ints'),
+               'bindings at root and in scope s; active scope [] or [s]; values: all ints, and None for the root bindings'),
     'c10_shapes': dict(
         fn='c10_shapes',
         anchors=['gin.config:gin_wrapper'],
